@@ -80,16 +80,40 @@ namespace ValueFlow
             return value;
         const ValueType* vt1 = parent->astOperand1()->valueType();
         const ValueType* vt2 = parent->astOperand2()->valueType();
+        size_t n1 = vt1->getSizeOf(settings, ValueType::Accuracy::ExactOrZero, ValueType::SizeOf::Pointer);
+        size_t n2 = vt2->getSizeOf(settings, ValueType::Accuracy::ExactOrZero, ValueType::SizeOf::Pointer);
+        ValueType::Sign sign1 = vt1->sign;
+        ValueType::Sign sign2 = vt2->sign;
+        ValueType::Type type1 = vt1->type;
+        ValueType::Type type2 = vt2->type;
+        // an assignment converts to the type of the left hand side
+        if (parent->isAssignmentOp()) {
+            if (sign1 == sign2)
+                return value;
+            Value v = castValue(value, (n1 < n2) ? sign2 : sign1, std::max(n1, n2) * 8);
+            v.wideintvalue = value.intvalue;
+            return v;
+        }
+        // integer promotion: types smaller than int are converted to (signed) int
+        if (n1 > 0 && n1 < settings.platform.sizeof_int) {
+            n1 = settings.platform.sizeof_int;
+            sign1 = ValueType::Sign::SIGNED;
+            type1 = ValueType::Type::INT;
+        }
+        if (n2 > 0 && n2 < settings.platform.sizeof_int) {
+            n2 = settings.platform.sizeof_int;
+            sign2 = ValueType::Sign::SIGNED;
+            type2 = ValueType::Type::INT;
+        }
         // If the sign is the same there is no truncation
-        if (vt1->sign == vt2->sign)
+        if (sign1 == sign2)
             return value;
-        const size_t n1 = vt1->getSizeOf(settings, ValueType::Accuracy::ExactOrZero, ValueType::SizeOf::Pointer);
-        const size_t n2 = vt2->getSizeOf(settings, ValueType::Accuracy::ExactOrZero, ValueType::SizeOf::Pointer);
+        // usual arithmetic conversions: the larger type wins, unsigned wins if the types have the same rank
         ValueType::Sign sign = ValueType::Sign::UNSIGNED;
         if (n1 < n2)
-            sign = vt2->sign;
-        else // (n1 >= n2)
-            sign = vt1->sign;
+            sign = sign2;
+        else if (n1 > n2 || type1 != type2)
+            sign = sign1;
         Value v = castValue(value, sign, std::max(n1, n2) * 8);
         v.wideintvalue = value.intvalue;
         return v;
